@@ -208,9 +208,9 @@ fn spec(t: Tier) -> Spec {
     Spec {
         id: "C17",
         level: "exploration",
-        rule: format!("every regex AST with <= {} nodes over atoms a b / . [ab] [^a], concatenation, alternation, * + ? and {{1,2}} (operands of postfix operators are atoms or groups), prefixed either by the literal \\./ or (ASTs one node smaller) by a floating .* and plus every AST of up to {} nodes over a, b with ?, *, concatenation and alternation only; rendered in each of emacs, posix-extended, grep, posix-basic, ed, sed with that syntax's spelling (ASTs using an operator the syntax lacks are skipped for it); x -regex / -iregex; x three placements of -regextype (directly before, inside a preceding parenthesis, before a parenthesis holding -regex) and two consecutive -regextype options; evaluated by the real find on a tree whose paths are ./NAME for every NAME of <= 3 letters over a,b (b is a directory holding a, b, ab), upper-case variants A aB BA, and compared path by path with whole-string membership in the AST's language (set-of-end-positions matcher; -iregex on case-folded letters). evaluation = (pattern, syntax, primary, placement, path); non-trivial = AST with an operator", max_size(t), deep_size(t)),
+        rule: format!("every regex AST with <= {} nodes over atoms a b / . [ab] [^a], concatenation, alternation, * + ? and {{1,2}} (operands of postfix operators are atoms or groups), prefixed either by the literal \\./ or (ASTs one node smaller) by a floating .* and plus every AST of up to {} nodes over a, b with ?, *, concatenation and alternation only; rendered in each of emacs, posix-extended, grep, posix-basic, ed, sed with that syntax's spelling (ASTs using an operator the syntax lacks are skipped for it); x -regex / -iregex; x three placements of -regextype (directly before, inside a preceding parenthesis, before a parenthesis holding -regex) and two consecutive -regextype options; evaluated by the real find on a tree whose paths are ./NAME for every NAME of <= 3 letters over a,b (b is a directory holding a, b, ab), upper-case variants A aB BA, and compared path by path with whole-string membership in the AST's language (set-of-end-positions matcher; -iregex on case-folded letters). long-name slice: .*/(b|bc*d)(T)* with T in c|cc, cc|c, c?, c{{1,2}} in emacs, posix-extended, grep x -regex/-iregex against names b c^n d, b c^n x, b c^n for every n <= {long} (exact answers required) and n in 33, 37 (exact, or the engine's giving up reported loudly: diagnostic naming the path, exit status != 0, path not selected); evaluation = (pattern, syntax, primary, placement, path); non-trivial = AST with an operator", max_size(t), deep_size(t), long = long_exact(t)),
         bound: json!({"max_ast_nodes": max_size(t), "syntaxes": TYPES.iter().map(|t| t.0).collect::<Vec<_>>(), "placements": ["before","in-preceding-parens","before-parens-holding-regex","two-regextypes"]}),
-        assumptions: vec!["'.' and [^a] versus newline are not exercised (no newline in the paths)".into(), "emacs is the default syntax (also checked with no -regextype at all)".into()],
+        assumptions: vec!["for patterns with quantifiers nested 5 deep or more, and for the two longest names of the long-name slice, the engine may give up on a path provided it is loud about it (diagnostic naming the path, exit status 1, path not selected); everywhere else every answer must be exact and the exit status 0".into(), "'.' and [^a] versus newline are not exercised (no newline in the paths)".into(), "emacs is the default syntax (also checked with no -regextype at all)".into()],
         shards: 0,
         wall_cap_s: t.pick(300, 3600),
     }
@@ -303,6 +303,8 @@ fn judge(ctx: &mut Ctx, paths: &[String], tname: &str, syn: Syn, prim: &str, pla
             Err(e) => ctx.rep.machinery(e),
         }
     }
+    // paths on which the engine gave up loudly (diagnostic naming the path + exit status 1)
+    let mut refused: BTreeSet<String> = BTreeSet::new();
     if out.code != Ok(0) {
         if batch.len() > 1 {
             for b in batch {
@@ -310,9 +312,18 @@ fn judge(ctx: &mut Ctx, paths: &[String], tname: &str, syn: Syn, prim: &str, pla
             }
             return;
         }
-        let kind = if out.panicked() { "panic" } else { "pattern rejected / non-zero status" };
-        ctx.rep.violation(&format!("C17 {kind}: {} [{tag}]", feature(&batch[0].0)), format!("find {:?}\n{}", argv, out.brief()), json!({"prop":"C17","argv":argv,"pattern":pats[0],"type":tname,"prim":prim,"place":format!("{place:?}")}));
-        return;
+        // A backtracking engine may give up on quantifiers nested REFUSAL_QDEPTH deep or more; that is
+        // accepted only when it is loud: one diagnostic per such path, exit status 1, path not selected.
+        let err = String::from_utf8_lossy(&out.err).to_string();
+        let gave_up: Vec<Option<&str>> = err.lines().map(|l| l.strip_prefix("Error matching ").and_then(|r| r.split_once(" against the regular expression: ")).filter(|(_, why)| why.contains("retry-limit")).map(|(p, _)| p)).collect();
+        if !out.panicked() && out.code == Ok(1) && qdepth(&batch[0].0) >= REFUSAL_QDEPTH && !gave_up.is_empty() && gave_up.iter().all(|g| g.is_some()) {
+            refused = gave_up.into_iter().flatten().map(String::from).collect();
+            ctx.rep.count("loud_engine_give_ups_accepted(deeply nested quantifiers)", refused.len() as u64);
+        } else {
+            let kind = if out.panicked() { "panic" } else { "pattern rejected / non-zero status" };
+            ctx.rep.violation(&format!("C17 {kind}: {} [{tag}]", feature(&batch[0].0)), format!("find {:?}\n{}", argv, out.brief()), json!({"prop":"C17","argv":argv,"pattern":pats[0],"type":tname,"prim":prim,"place":format!("{place:?}")}));
+            return;
+        }
     }
     let mut sel: Vec<BTreeSet<String>> = vec![BTreeSet::new(); batch.len()];
     for line in String::from_utf8_lossy(&out.out).split_terminator('\n') {
@@ -332,6 +343,9 @@ fn judge(ctx: &mut Ctx, paths: &[String], tname: &str, syn: Syn, prim: &str, pla
             let want = full_match(&whole, p.as_bytes(), fold);
             let got = sel[k].contains(p);
             ctx.rep.evaluations += 1;
+            if refused.contains(p) && !got {
+                continue;
+            }
             if size(ast) > 5 {
                 ctx.rep.nontrivial += 1;
             }
@@ -424,6 +438,118 @@ fn run(ctx: &mut Ctx) {
         }
     }
     let _ = std::env::set_current_dir(&ctx.sbx);
+    long_name_slice(ctx, false);
+}
+
+/// Longest run of c's in the exact zone / in the zone where a loud refusal is also accepted.
+fn long_exact(t: Tier) -> usize {
+    t.pick(24, 28)
+}
+const LONG_REFUSAL: [usize; 2] = [33, 37];
+
+/// Long names against patterns whose whole-path match needs the engine to give up many partial
+/// matches first: a prefix-first alternation followed by an ambiguous starred group,
+/// `.*/(b|bc*d)(T)*` with T in c|cc, cc|c, c?, c{1,2}; names b c^n d (in the language),
+/// b c^n x (not), b c^n (in) for every n up to the exact bound: the answer must be exact. For two
+/// longer names the engine may give up, but then loudly (diagnostic naming the path, exit status
+/// != 0, path not selected) — never a silent wrong answer.
+fn long_name_slice(ctx: &mut Ctx, all: bool) {
+    let w = ctx.sbx.join("lw");
+    let _ = crate::sandbox::force_remove(&w);
+    if let Err(e) = std::fs::create_dir(&w) {
+        ctx.rep.machinery(format!("sandbox: {e}"));
+        return;
+    }
+    let nmax = long_exact(ctx.tier);
+    let mut names: Vec<(String, usize)> = vec![];
+    for n in (1..=nmax).chain(LONG_REFUSAL) {
+        for tail in ["d", "x", ""] {
+            names.push((format!("b{}{tail}", "c".repeat(n)), n));
+        }
+    }
+    for (n, _) in &names {
+        if let Err(e) = std::fs::write(w.join(n), b"") {
+            ctx.rep.machinery(format!("sandbox: {e}"));
+            return;
+        }
+    }
+    std::env::set_current_dir(&w).unwrap();
+    let lit = |c: u8| Box::new(Re::Lit(c));
+    let cat = |a: Box<Re>, b: Box<Re>| Box::new(Re::Cat(a, b));
+    let head = || Box::new(Re::Alt(lit(b'b'), cat(lit(b'b'), cat(Box::new(Re::Star(lit(b'c'))), lit(b'd')))));
+    let tails: Vec<Re> = vec![
+        Re::Alt(lit(b'c'), cat(lit(b'c'), lit(b'c'))),
+        Re::Alt(cat(lit(b'c'), lit(b'c')), lit(b'c')),
+        Re::Opt(lit(b'c')),
+        Re::Rep12(lit(b'c')),
+    ];
+    let mut job = 0u64;
+    for tail in &tails {
+        let ast = Re::Cat(Box::new(Re::Star(Box::new(Re::Dot))), cat(lit(b'/'), cat(head(), Box::new(Re::Star(Box::new(tail.clone()))))));
+        for (tname, syn) in [("emacs", Syn::Emacs), ("posix-extended", Syn::Ere), ("grep", Syn::Grep)] {
+            let Some(pat) = render(&ast, syn) else { continue };
+            for prim in ["-regex", "-iregex"] {
+                job += 1;
+                if !all && job % ctx.nshards != ctx.shard {
+                    continue;
+                }
+                let argv: Vec<String> = [".", "-mindepth", "1", "-regextype", tname, prim, &pat].map(String::from).to_vec();
+                let args: Vec<&str> = argv.iter().map(|s| s.as_str()).collect();
+                let out = run_find(&args);
+                let sel: BTreeSet<String> = String::from_utf8_lossy(&out.out).lines().map(|l| l.to_string()).collect();
+                let err = String::from_utf8_lossy(&out.err).to_string();
+                if out.panicked() {
+                    ctx.rep.violation(&format!("C17 panic: long names [{prim} {tname}]"), format!("find {:?}\n{}", argv, out.brief()), json!({"prop":"C17","long":true,"argv":argv}));
+                    continue;
+                }
+                let mut refused = 0;
+                for (name, n) in &names {
+                    let path = format!("./{name}");
+                    let want = full_match(&ast, path.as_bytes(), prim == "-iregex");
+                    let got = sel.contains(&path);
+                    ctx.rep.evaluations += 1;
+                    ctx.rep.nontrivial += 1;
+                    if got == want {
+                        continue;
+                    }
+                    if *n > nmax && !got && out.code != Ok(0) && err.contains(&path) {
+                        refused += 1;
+                        continue;
+                    }
+                    let how = if got {
+                        "matches a path outside the language"
+                    } else if *n > nmax {
+                        "silently misses a long path in the language (the engine gave up without a diagnostic and exit status)"
+                    } else {
+                        "misses a long path in the language"
+                    };
+                    ctx.rep.violation(
+                        &format!("C17 {how}: ambiguous starred group after a prefix-first alternation [{prim} {tname}]"),
+                        format!("find {:?}: path {path:?} selected={got}, in the language={want}; status {:?} stderr {:?}", argv, out.code, err.lines().next().unwrap_or("")),
+                        json!({"prop":"C17","long":true,"argv":argv,"path":path,"expected":want}),
+                    );
+                }
+                if refused == 0 && out.code != Ok(0) {
+                    ctx.rep.violation(&format!("C17 non-zero status although every path was answered: long names [{prim} {tname}]"), format!("find {:?}\n{}", argv, out.brief()), json!({"prop":"C17","long":true,"argv":argv}));
+                }
+                ctx.rep.count("long_name_runs", 1);
+                ctx.rep.count("long_name_loud_refusals_accepted", refused);
+            }
+        }
+    }
+    let _ = std::env::set_current_dir(&ctx.sbx);
+}
+
+/// quantifiers nested this deep (or deeper) may make the engine give up, if it says so
+const REFUSAL_QDEPTH: usize = 5;
+
+/// nesting depth of quantifiers
+fn qdepth(r: &Re) -> usize {
+    match r {
+        Re::Cat(a, b) | Re::Alt(a, b) => qdepth(a).max(qdepth(b)),
+        Re::Star(a) | Re::Plus(a) | Re::Opt(a) | Re::Rep12(a) => 1 + qdepth(a),
+        _ => 0,
+    }
 }
 
 fn size(r: &Re) -> usize {
@@ -435,6 +561,10 @@ fn size(r: &Re) -> usize {
 }
 
 fn replay(case: &Value, ctx: &mut Ctx) -> Option<String> {
+    if case["long"] == true {
+        long_name_slice(ctx, true);
+        return ctx.rep.violations.keys().next().cloned();
+    }
     build(ctx).ok()?;
     let tname = case["type"].as_str()?;
     let prim = case["prim"].as_str()?;
